@@ -83,6 +83,7 @@ type Exec struct {
 	genLimit    time.Duration   // wall-clock limit for generating the conditions of one function (fail-closed when exceeded)
 	genStart    time.Time
 	genTicks    int
+	inInit      bool // executing package initialisers (globals.go)
 	genSlow     time.Duration // time spent so far in functions that ran into genLimit
 	genSlowMax  time.Duration // once that much was spent, further functions that get slow are cut after a tenth of genLimit
 	tids        map[string]int
@@ -756,8 +757,8 @@ func (fr *Frame) clone() *Frame {
 // checkGenBudget: generating the conditions of one function has a wall-clock limit (fail-closed when exceeded); once
 // functions that hit it have used up genSlowMax in total, the others get a tenth of the limit.
 func (e *Exec) checkGenBudget() {
-	if e.genLimit <= 0 {
-		return
+	if e.genLimit <= 0 || e.genStart.IsZero() || e.inInit {
+		return // (package initialisers are executed outside any function's budget)
 	}
 	e.genTicks++
 	if e.genTicks%8 != 0 {
